@@ -48,6 +48,12 @@ def main(argv):
         if not eok:
             ctx.violation("tie", "fact extractor failed on /repo's source (fails closed)", dict(output=eout[-3000:]),
                           found_input=False)
+    # 2b. property-specific regeneration of proof inputs (e.g. other extracted fact files)
+    if ok and spec.get("pre"):
+        try:
+            spec["pre"](ctx, spec)
+        except Exception as ex:
+            ctx.violation("tie", f"regeneration of proof inputs failed: {ex}", dict(error=str(ex)), found_input=False)
     # 3. theorems
     mods = spec.get("lean_modules", [])
     bok, bout = C.build_lean(mods + ["vdriver"], ctx.log)
